@@ -2,6 +2,7 @@ package ctext
 
 import (
 	"fmt"
+	"strings"
 )
 
 // Expression nodes owned by the MSL dialect (customExpr of hlsl_ext.go).
@@ -201,7 +202,14 @@ func (x *mslCast) checkCustom(c *checker) Expr {
 			return x
 		}
 		if len(x.Args) == 1 && x.Args[0].base().T.Kind == KMat {
-			c.unsupported(x.Pos, "%s from %s", what, mslTypeString(x.Args[0].base().T))
+			at := x.Args[0].base().T
+			if at.Cols == t.Cols && at.Rows == t.Rows {
+				// MSL §2.3 matrix constructors: a matrix of the other floating
+				// type with the same dimensions converts component-wise
+				x.how = castConvert
+				return x
+			}
+			c.unsupported(x.Pos, "%s from %s", what, mslTypeString(at))
 		}
 		allScalar, allCols := true, true
 		for _, a := range x.Args {
@@ -557,7 +565,7 @@ var mslEnumerators = map[string]struct {
 
 func (x *mslEnum) checkCustom(c *checker) Expr {
 	e, ok := mslEnumerators[x.Name]
-	if !ok || x.Name[:6] == "thread" {
+	if !ok || strings.HasPrefix(x.Name, "thread_scope") {
 		if mslIsBuiltinFunc(x.Name) {
 			c.invalid(x.Pos, "type", "function name metal::%s used as a value", x.Name)
 		}
@@ -581,16 +589,11 @@ func (x *mslTemplateCall) checkCustom(c *checker) Expr {
 	for i := range x.Args {
 		x.Args[i] = c.value(x.Args[i])
 	}
-	r.instantiateFor(c, x.Pos, x.Name, x.Args)
-	s := c.scopes[0].syms[x.Name]
-	if s == nil || s.Kind != SymFunc {
-		c.invalid(x.Pos, "undeclared", "call of undeclared function template %q", x.Name)
+	fn := r.resolveTemplateCall(c, x)
+	if fn == nil {
+		c.invalid(x.Pos, "no-overload", "no matching function template for call to %s%s", x.Name, mslArgTypes(x.Args))
 	}
 	call := &Call{ExprBase: ExprBase{Pos: x.Pos}, Name: x.Name, Args: x.Args}
-	fn := c.resolveUser(call, s.Funcs)
-	if fn == nil {
-		c.invalid(x.Pos, "no-overload", "no matching function for call to %s%s", x.Name, mslArgTypes(x.Args))
-	}
 	call.Fn = fn
 	call.T = fn.Ret
 	c.bindArgs(call, paramTypes(fn), paramDirs(fn))
